@@ -32,8 +32,10 @@ def build(S, spec, complex_=None):
     indices = make_indices(spec)
     nm = spec.get("name", "a")
     blocks = {}
+    cx = spec.get("cx")  # mixed arrays: exactly these sectors hold complex entries, the others real
     for sector in spec["present"]:
-        blocks[sector] = S.fill(f"{nm}{_sec(sector)}", block_shape(spec, sector), complex_)
+        cflag = complex_ if cx is None else (sector in cx)
+        blocks[sector] = S.fill(f"{nm}{_sec(sector)}", block_shape(spec, sector), cflag)
     kw = {}
     if generic:
         kw["symmetry"] = spec["sym"]
